@@ -4,6 +4,8 @@ import (
 	"context"
 	"fmt"
 	signerhandler "github.com/attestantio/dirk/services/api/grpc/handlers/signer"
+	"github.com/attestantio/dirk/services/sender"
+	sendergrpc "github.com/attestantio/dirk/services/sender/grpc"
 	distributed "github.com/wealdtech/go-eth2-wallet-distributed"
 	keystorev4 "github.com/wealdtech/go-eth2-wallet-encryptor-keystorev4"
 	nd "github.com/wealdtech/go-eth2-wallet-nd/v2"
@@ -527,9 +529,21 @@ func cmdWire(args []string) int {
 	if _, err := distributed.CreateWallet(ctx, "Wallet D", st0, keystorev4.New()); err != nil {
 		return 2
 	}
+	// the instance talks to its peers through the REAL gRPC sender; the peers' ports are closed, so every
+	// key-generation call to them fails (a failing peer must cost the daemon nothing, however often it happens)
+	var realSender sender.Service
+	if ca, caKey, cerr := mintCA("verif wire authority"); cerr == nil {
+		if nc, nerr := mintNode("127.0.0.1", ca, caKey); nerr == nil {
+			if snd, serr := sendergrpc.New(ctx, sendergrpc.WithName("127.0.0.1"), sendergrpc.WithServerCert(nc.certPEM), sendergrpc.WithServerKey(nc.keyPEM), sendergrpc.WithCACert(pemCert(ca.Raw))); serr == nil {
+				realSender = snd
+				stats["other.real-sender"] = 1
+			}
+		}
+	}
 	node, err := NewNode(ctx, NodeOpts{ID: 1, Stores: append([]e2wtypes.Store{st0}, fx.Stores...), Perms: map[string][]*checker.Permissions{
 		"client1": {{Path: "Wallet 1", Operations: []string{"All"}}, {Path: "Wallet 2", Operations: []string{"All"}}, {Path: "Wallet N", Operations: []string{"All"}}, {Path: "Wallet D", Operations: []string{"All"}}}},
-		PeersMap: map[uint64]string{1: "signer-test01:10001", 2: "signer-test02:10002", 3: "signer-test03:10003"}})
+		PeersMap: map[uint64]string{1: fmt.Sprintf("127.0.0.1:%d", freePort()), 2: fmt.Sprintf("127.0.0.2:%d", freePort()), 3: fmt.Sprintf("127.0.0.3:%d", freePort())},
+		Sender:   realSender})
 	if err != nil {
 		fmt.Fprintln(os.Stderr, err)
 		return 2
